@@ -1030,4 +1030,50 @@ theorem total_init (inp : Input) (maxRec : Nat) (leak : Bool) :
   unfold total Input.init scannerErrs pendingErrs Input.env
   cases inp.toks <;> simp
 
+/-- A production is balanced: on every normal return the recursion counter is back at its entry value. -/
+def Balanced {α : Type} (x : P α) : Prop :=
+  ∀ (env : Env) (st st' : St) (a : α), env.leak = false → x env st = .ok a st' → st'.recursion = st.recursion
+
+theorem Sound.balanced {α : Type} {x : P α} {stk : α → List STok} {wf : α → Bool} (h : Sound x stk wf) :
+    Balanced x := fun _ _ _ _ hl hx => (h.ok hl hx).1
+
+
+/-- The recorded position of the first token of a spec token list. -/
+def firstPos (ss : List STok) : Option Pos := ss.head?.bind (·.pos)
+
+theorem firstPos_append_of_some {a b : List STok} {p : Pos} (h : firstPos a = some p) : firstPos (a ++ b) = some p := by
+  cases a with
+  | nil => simp [firstPos] at h
+  | cons x a => simpa [firstPos] using h
+
+theorem Name.firstPos (n : Name) : firstPos n.stoks = some n.position := rfl
+theorem Variable.firstPos (v : Variable) : firstPos v.stoks = some v.position := rfl
+
+theorem Value.firstPos (v : Value) : firstPos v.stoks = some v.position := by
+  cases v <;> rfl
+
+theorem TypeExpr.firstPos (t : TypeExpr) : firstPos t.stoks = some t.position := by
+  induction t with
+  | named n => rfl
+  | list t o c _ => rfl
+  | nonNull t ih => exact firstPos_append_of_some ih
+
+theorem Selection.firstPos (s : Selection) : firstPos s.stoks = some s.position := by
+  cases s with
+  | field al n args dirs sel => cases al <;> rfl
+  | spread e n dirs => rfl
+  | inline e tc dirs sel => rfl
+
+theorem SelSet.firstPos (s : SelSet) : firstPos s.stoks = some s.position := by
+  cases s; rfl
+
+theorem Definition.firstPos (d : Definition) : firstPos d.stoks = some d.position := by
+  cases d with
+  | op t name vars dirs sel =>
+    cases t with
+    | none => exact SelSet.firstPos sel
+    | some t => rfl
+  | frag p n tc dirs sel => rfl
+
+
 end ApiFu.C06
